@@ -236,6 +236,11 @@ def det_line(rng, family):
         if family == "ebtopo" or rng.random() < 0.5:
             toks.append(f"bufhist={rng.randrange(1, 1 << 30)}")
         tags = ("det", "family:" + family, "expert" if expert else "encoder", "mesh" if g.is_mesh else "pc", f"history:{len(hist)}")
+        if not expert and hist and rng.random() < 0.35:
+            # the reused Encoder calls Reset() before the main job: it must then behave like a fresh Encoder that
+            # received the main job's setters only
+            toks.append("reset=1")
+            tags += ("reset-before-main",)
     line = "det " + " ".join(toks) + " -- " + g.to_text()
     for th, gh in hist:
         # an ExpertEncoder is bound to one geometry: its history is a sequence of option changes
